@@ -11,8 +11,6 @@ Clauses (one `Viol` constructor each):
   * `fifo`      an executed command is not the oldest unconsumed input of its user (a complete line in line mode,
                 a non-empty prefix in single-char mode) - order, loss and duplication
   * `idleWait`  backend asked the poller to block although a connected user already had a complete command buffered
-  * `starvedRaw` / `fifoRaw`  the same two failures when the input concerned was typed while a get_char() was
-                pending (known finding C12-getchar-typeahead: such bytes are buffered unframed, see notes/C12.md)
   * `efun`      a command() call on a live object was not executed at once (command() is not turn-limited:
                 `ecmd` events never count for `twice`)
   * `outside`, `crash`, `malformed`  robustness of the trace itself
@@ -27,71 +25,37 @@ inductive Viol where
   | twice (u n : Nat)
   | starved (u n : Nat)
   | fifo (u : Nat) (text : List Char)
-  | starvedRaw (u n : Nat)
-  | fifoRaw (u : Nat) (text : List Char)
   | idleWait (n u : Nat)
-  | idleWaitRaw (n u : Nat)
   | efun (target : Nat) (text : List Char)
   | outside (u : Nat)
   | crash (what : String)
   | malformed (line : String)
   deriving Repr, BEq, DecidableEq
 
-structure JU where
-  connected : Bool := false      -- logged on and not removed by the driver side (kick / drop)
-  clientOpen : Bool := true      -- the client has not closed its socket
-  pending : List (Char × Bool) := []   -- sent before the last `begin`, not yet consumed (`~` = end of line);
-                                       -- the flag: sent while a get_char() of this user was pending
-  fresh : List (Char × Bool) := []     -- sent after the last `begin`
-  charMode : Bool := false       -- a get_char() succeeded since this user's last command
-  rawTaint : Bool := false       -- something was typed while a get_char() was pending and the queue has not drained since
-  served : Bool := false         -- in the running cycle
-  eligible : Bool := false       -- snapshot taken at `begin`
-  deriving Repr, BEq, DecidableEq
+/-! ### consuming an executed command from the bytes a user has sent (`~` = end of line) -/
 
-structure JState where
-  us : List (Nat × JU) := []
-  cyc : Option Nat := none
-  mustNotBlock : Option (Nat × Bool) := none
-  bad : List Viol := []                      -- newest first
+/-- single-char mode: `text` is the raw form (CR LF for every `~`) of a prefix of `p`; the rest of `p` -/
+def stripRaw : List Char → List Char → Option (List Char)
+  | [], p => some p
+  | _ :: _, [] => none
+  | c :: t, x :: p =>
+    if x == '~' then
+      match t with
+      | d :: t' => if c == CR && d == LF then stripRaw t' p else none
+      | [] => none
+    else if c == x then stripRaw t p else none
 
-def getU (s : JState) (u : Nat) : JU :=
-  match s.us.find? (fun e => e.1 == u) with
-  | some e => e.2
-  | none => {}
-
-def setU (s : JState) (u : Nat) (j : JU) : JState :=
-  { s with us := (u, j) :: s.us.filter (fun e => e.1 != u) }
-
-def JState.flag (s : JState) (v : Viol) : JState := { s with bad := v :: s.bad }
+/-- consume an executed command from the pending input; `none` = it is not the oldest input.
+    Line rule: `text` followed by the line end is a prefix.  Single-char rule: the non-empty `text` is the raw form of
+    a prefix (everything typed so far may arrive as one "character"). -/
+def consume (charMode : Bool) (p text : List Char) : Option (List Char) :=
+  let line := text ++ ['~']
+  if line.isPrefixOf p then some (p.drop line.length)
+  else if charMode && !text.isEmpty then stripRaw text p else none
 
 /-- a complete command is waiting -/
-def complete (charMode : Bool) (p : List (Char × Bool)) : Bool :=
-  if charMode then !p.isEmpty else (p.map (·.1)).contains '~'
-
-/-- the oldest pending line (or everything, when no line is complete) contains bytes typed during a get_char() -/
-def firstLineRaw (p : List (Char × Bool)) : Bool :=
-  ((p.takeWhile (fun e => e.1 != '~')).any (·.2)) || ((p.dropWhile (fun e => e.1 != '~')).take 1).any (·.2)
-
-def live (j : JU) : Bool := j.connected && j.clientOpen
-
-/-- CR LF pairs of a single-char-mode text back to the `~` of the input alphabet -/
-def crlfToTilde : List Char → List Char
-  | c :: d :: r => if c == CR && d == LF then '~' :: crlfToTilde r else c :: crlfToTilde (d :: r)
-  | l => l
-
-/-- consume an executed command from the pending input; `none` = not the oldest input -/
-def consume (charMode : Bool) (p : List (Char × Bool)) (text : List Char) : Option (List (Char × Bool)) :=
-  let line := text ++ ['~']
-  if line.isPrefixOf (p.map (·.1)) then some (p.drop line.length)
-  else
-    let raw := crlfToTilde text
-    if charMode && !raw.isEmpty && raw.isPrefixOf (p.map (·.1)) then some (p.drop raw.length) else none
-
-/-- after a `fifo` violation: drop what the command visibly was made of, so that one defect is reported once -/
-def resync (p : List (Char × Bool)) (text : List Char) : List (Char × Bool) :=
-  let raw := crlfToTilde text ++ ['~']
-  if raw.isPrefixOf (p.map (·.1)) then p.drop raw.length else p
+def complete (charMode : Bool) (p : List Char) : Bool :=
+  if charMode then !p.isEmpty else p.contains '~'
 
 /-! ### clause oracle 1: structure of the trace and one command per user per cycle -/
 
@@ -140,50 +104,83 @@ def judgeEfun (trace : List Ev) : List Viol :=
     | none => s.bad
   bad.reverse
 
-/-! ### clause oracle 3: starvation, FIFO, idle wait (needs the bytes sent and consumed per user) -/
+/-! ### clause oracle 3: commands of one user execute in the order received -/
 
+structure FU where
+  pending : List Char := []      -- sent and not yet consumed by an executed command
+  charMode : Bool := false       -- a get_char() succeeded since this user's last command
+  deriving Repr, BEq, DecidableEq, Inhabited
+
+structure FState where
+  us : AMap FU := []
+  bad : List Viol := []
+
+/-- clause `fifo` -/
+def fifoStep (s : FState) (e : Ev) : FState :=
+  match e with
+  | .send u d => { s with us := upd s.us u { s.us.get u with pending := (s.us.get u).pending ++ d } }
+  | .gc u true => { s with us := upd s.us u { s.us.get u with charMode := true } }
+  | .cmd u text =>
+    match consume (s.us.get u).charMode (s.us.get u).pending text with
+    | some p => { s with us := upd s.us u { pending := p, charMode := false } }
+    | none => { us := upd s.us u { s.us.get u with charMode := false }, bad := .fifo u text :: s.bad }
+  | _ => s
+
+def judgeFifo (trace : List Ev) : List Viol := (trace.foldl fifoStep {}).bad.reverse
+
+/-! ### clause oracle 4: nobody waits - starvation and idle poll -/
+
+structure JU where
+  connected : Bool := false      -- logged on and not removed by the driver side (kick / drop)
+  clientOpen : Bool := true      -- the client has not closed its socket
+  pending : List Char := []      -- sent before the last `begin`, not yet consumed
+  fresh : List Char := []        -- sent after the last `begin`
+  charMode : Bool := false
+  served : Bool := false         -- in the running cycle
+  eligible : Bool := false       -- snapshot taken at `begin`
+  deriving Repr, BEq, DecidableEq, Inhabited
+
+structure JState where
+  us : AMap JU := []
+  ids : List Nat := []           -- users that have logged on
+  mustNotBlock : Option Nat := none
+  bad : List Viol := []          -- newest first
+
+def live (j : JU) : Bool := j.connected && j.clientOpen
+
+/-- clauses `starved`, `idleWait` -/
 def judgeStep (s : JState) (e : Ev) : JState :=
   match e with
-  | .conn _ => s
-  | .logon u => setU s u { connected := true }
-  | .send u d => let j := getU s u; setU s u { j with fresh := j.fresh ++ d.map (fun c => (c, j.charMode)), rawTaint := j.rawTaint || j.charMode }
-  | .close u => let j := getU s u; setU s u { j with clientOpen := false }
-  | .begin n =>
-    let blocker := (s.us.find? (fun e => live e.2 && complete e.2.charMode e.2.pending)).map
-      (fun e => (e.1, e.2.rawTaint || firstLineRaw e.2.pending))
-    let us := s.us.map (fun (u, j) =>
+  | .logon u => { s with us := upd s.us u { connected := true }, ids := u :: s.ids }
+  | .send u d => { s with us := upd s.us u { s.us.get u with fresh := (s.us.get u).fresh ++ d } }
+  | .close u => { s with us := upd s.us u { s.us.get u with clientOpen := false } }
+  | .begin _ =>
+    let blocker := s.ids.find? (fun u => live (s.us.get u) && complete (s.us.get u).charMode (s.us.get u).pending)
+    let us := s.ids.foldl (fun m u =>
+      let j := s.us.get u
       let p := j.pending ++ j.fresh
-      (u, { j with pending := p, fresh := [], served := false, eligible := live j && complete j.charMode p }))
-    { s with us := us, cyc := some n, mustNotBlock := blocker }
+      upd m u { j with pending := p, fresh := [], served := false, eligible := live j && complete j.charMode p }) s.us
+    { s with us := us, mustNotBlock := blocker }
   | .poll n block =>
     match s.mustNotBlock, block with
-    | some (u, raw), true => s.flag (if raw then .idleWaitRaw n u else .idleWait n u)
+    | some u, true => { s with bad := .idleWait n u :: s.bad }
     | _, _ => s
   | .cmd u text =>
-    let j := getU s u
-    match consume j.charMode j.pending text with
-    | some p => setU s u { j with pending := p, served := true, charMode := false, rawTaint := j.rawTaint && !p.isEmpty }
-    | none =>
-      setU (s.flag (if j.rawTaint || j.pending.any (·.2) then .fifoRaw u text else .fifo u text)) u
-        { j with pending := resync j.pending text, served := true, charMode := false }
-  | .ecmd _ _ => s
-  | .kick _ t ok => if ok then (let j := getU s t; setU s t { j with connected := false }) else s
-  | .drop _ t ok => if ok then (let j := getU s t; setU s t { j with connected := false }) else s
-  | .force _ _ _ _ => s
-  | .gc u r => if r then (let j := getU s u; setU s u { j with charMode := true }) else s
-  | .it _ _ => s
+    let j := s.us.get u
+    { s with us := upd s.us u { j with pending := (consume j.charMode j.pending text).getD j.pending, served := true,
+                                         charMode := false } }
+  | .kick _ t true => { s with us := upd s.us t { s.us.get t with connected := false } }
+  | .drop _ t true => { s with us := upd s.us t { s.us.get t with connected := false } }
+  | .gc u true => { s with us := upd s.us u { s.us.get u with charMode := true } }
   | .endc n _ _ =>
-    let starved := s.us.filter (fun e => e.2.eligible && live e.2 && !e.2.served)
-    let s := starved.foldl (fun s e =>
-      s.flag (if e.2.rawTaint || firstLineRaw e.2.pending then .starvedRaw e.1 n else .starved e.1 n)) s
-    { s with cyc := none, mustNotBlock := none }
-  | .crash _ => s
-  | .other _ => s
+    let starved := s.ids.filter (fun u => (s.us.get u).eligible && live (s.us.get u) && !(s.us.get u).served)
+    { s with bad := starved.map (fun u => Viol.starved u n) ++ s.bad, mustNotBlock := none }
+  | _ => s
 
-def judgeData (trace : List Ev) : List Viol := (trace.foldl judgeStep {}).bad.reverse
+def judgeLive (trace : List Ev) : List Viol := (trace.foldl judgeStep {}).bad.reverse
 
 /-- violations on a trace (per clause oracle, oldest first inside each); `[]` = the property held -/
 def judgeEv (trace : List Ev) : List Viol :=
-  judgeStruct trace ++ judgeEfun trace ++ judgeData trace
+  judgeStruct trace ++ judgeEfun trace ++ judgeFifo trace ++ judgeLive trace
 
 end NV.C12
